@@ -18,7 +18,8 @@ R6  the three places that make DFA transitions (match loop, yy_get_previous_stat
 R7  the saved copies in the buffer object (yy_buffer_state.yy_n_chars, .yy_buf_pos) are only read to reload the scanner
     registers; R3's end pointer is formed from the register.
 R9  the result of getc() is compared with EOF at its full int width (no truncation to 8 bits before the test).
-R5  input bytes index tables unsigned: in yylex / yy_get_previous_state / yy_try_NUL_trans every byte loaded through a
+R5  input bytes index tables unsigned; yy_ec is indexed by input bytes only (no constant arm, no value that already went
+    through a table).  Then: in yylex / yy_get_previous_state / yy_try_NUL_trans every byte loaded through a
     pointer into the buffer that flows into the index of a scanner table is zero-extended, never sign-extended.
 """
 import os, re
@@ -587,6 +588,77 @@ def r5(ctx, sc, control=False):
                                      ld.line, 'sign-extended' if ext is not None else 'used unextended', g.line, v.name), variant=v.describe())
     return (n, bad) if control else n
 
+def is_ec_table(sc, fn, base):
+    """the pointer is the equivalence-class table yy_ec (the global itself, or the pointer loaded from it with %option tables-file)"""
+    a = sc.fa(fn)
+    v = base; depth = 0
+    while depth < 10:
+        depth += 1
+        if not isinstance(v, tuple): return False
+        if v[0] == 'glob': return canon(v[1]) == 'yyec'
+        if v[0] in ('cgep', 'ccast'): v = v[2]; continue
+        if v[0] != 'reg': return False
+        d = fn.def_of(v)
+        if d is None: return False
+        if d.op in ('getelementptr', 'bitcast'): v = d.ops[0]; continue
+        if d.op == 'load':
+            l = a.loc(d.ops[0])
+            return (l[0] == 'global' and canon(l[1]) == 'yyec') or (l[0] == 'field' and canon(l[2]) == 'yyec')
+        return False
+    return False
+
+def index_leaves(sc, fn, v, seen=None, depth=0):
+    """kinds of values an integer can come from: 'byte' (loaded through a pointer into the buffer), 'const',
+    'table' (loaded from a scanner table), 'other'; through casts, phi/select and locals (all their stores)"""
+    a = sc.fa(fn)
+    if seen is None: seen = set()
+    if not isinstance(v, tuple) or depth > 40: return {('other', None)}
+    if v[0] == 'int': return {('const', v[1])}
+    if v[0] != 'reg' or v[1] in seen: return set()
+    seen.add(v[1])
+    d = fn.def_of(v)
+    if d is None: return {('other', None)}
+    if d.op in ('sext', 'zext', 'trunc'): return index_leaves(sc, fn, d.ops[0], seen, depth + 1)
+    if d.op in ('phi', 'select'):
+        out = set()
+        for o in (d.ops if d.op == 'phi' else d.ops[1:]): out |= index_leaves(sc, fn, o, seen, depth + 1)
+        return out
+    if d.op == 'load':
+        l = a.loc(d.ops[0])
+        if l[0] == 'local':
+            out = set()
+            for st in a.local_stores(l[1]): out |= index_leaves(sc, fn, st.ops[0], seen, depth + 1)
+            return out
+        if a.is_byte(d.ty) and a.is_buf_ptr(d.ops[0]): return {('byte', d.line)}
+        a.table_locals()
+        if a.is_table_ptr(d.ops[0]): return {('table', d.line)}
+    return {('other', None)}
+
+def r5b(ctx, sc):
+    """yy_ec maps input bytes to equivalence classes, nothing else: every index of a load from yy_ec is a byte loaded through
+    a pointer into the buffer on every incoming path.  A constant arm (the class YY_NUL_EC used as a character code) or a
+    value that already went through yy_ec / yy_meta would be mapped a second time."""
+    rep = ctx.rep; v = sc.v; n = 0
+    for role in ('LEX', 'GPS', 'NUL'):
+        for fn in sc.fns(role):
+            for x in fn.ins:
+                if x.op != 'load': continue
+                g = fn.def_of(x.ops[0])
+                if g is None or g.op != 'getelementptr' or not is_ec_table(sc, fn, g.ops[0]): continue
+                idx = g.ops[-1]
+                if idx == ('int', 0) and len(g.ops) > 2: continue
+                leaves = index_leaves(sc, fn, idx)
+                n += 1
+                bad = sorted(k for k, _ in leaves if k != 'byte')
+                key = 'C04.R5:%s:%s:yy_ec-index-not-a-byte' % (skel(v), norm(fn.name))
+                if bad or not leaves:
+                    what = {'const': 'a constant (a class number such as YY_NUL_EC used as a character code)', 'table': 'a value loaded from a scanner table (mapped twice)', 'other': 'something that is not an input byte'}
+                    rep.fail('C04.R5', key, where(x), '%s indexes yy_ec (line %s) with %s on some path: yy_ec maps input bytes to equivalence classes, the result is the class of the wrong character [variant %s]' % (
+                        norm(fn.name), x.line, ' / '.join(what[b] for b in bad) or 'nothing traceable', v.name), variant=v.describe())
+                else:
+                    rep.ok('C04.R5', '%s %s: yy_ec@%s is indexed by a buffer byte on every path' % (v.name, norm(fn.name), x.line))
+    return n
+
 class _ControlVariant:
     name = 'selftest'; backend = 'nr'; feats = frozenset(); options = []
     def describe(s): return 'selftest/C04_R5_control.ll'
@@ -667,7 +739,7 @@ def run(ctx):
     vs = [v for v in ctx.variants() if c03.usable(v)]
     rep.require(len(vs) >= 60, 'only %d scanner variants compiled to IR' % len(vs))
     positive_control(ctx)
-    tot = {'R1': 0, 'R2': 0, 'R3': 0, 'R5': 0, 'R6': 0, 'R7': 0, 'R9': 0}
+    tot = {'R1': 0, 'R2': 0, 'R3': 0, 'R5': 0, 'R6': 0, 'R7': 0, 'R9': 0, 'R5b': 0, 'ecs': 0}
     backends = set()
     for v in vs:
         sc = Scanner(v)
@@ -678,6 +750,8 @@ def run(ctx):
         tot['R2'] += r2(ctx, sc)
         tot['R3'] += r3(ctx, sc)
         tot['R5'] += r5(ctx, sc)
+        tot['R5b'] += r5b(ctx, sc)
+        if 'M4_MODE_USEECS' in variants.mode_symbols(v): tot['ecs'] += 1
         tot['R6'] += r6(ctx, sc, lex)
         tot['R7'] += r7(ctx, sc)
         tot['R9'] += r9(ctx, sc)
@@ -695,6 +769,7 @@ def run(ctx):
     c03.count_guard(rep, tot['R7'] >= 3 * len(vs), 'C04.R7 matched %d loads of saved buffer state, 3 per variant expected (2 in yy_load_buffer_state, 1 in yylex)' % tot['R7'])
     for r in ('C04.R1', 'C04.R2', 'C04.R3', 'C04.R5', 'C04.R6', 'C04.R7'): rep.floor(r, 1, 'see instances_* counters')
     rep.floor('C04.R4', 3, 'ccladd, mkstate, check_char')
+    c03.count_guard(rep, tot['R5b'] >= 2 * tot['ecs'], 'C04.R5 matched %d loads from yy_ec, 2 per variant with equivalence classes (%d) expected (match loop, yy_get_previous_state)' % (tot['R5b'], tot['ecs']))
     c03.count_guard(rep, tot['R9'] >= 120, 'C04.R9 matched %d EOF comparisons of getc results, 2 per C variant with stdio input expected' % tot['R9'])
     rep.floor('C04.R9', 1, 'EOF comparisons in yyread')
     rep.floor('C04.R8', 1, 'census of generator loops')
